@@ -57,6 +57,31 @@ pub fn run_children(cases: &[J], parallel: usize, timeout_s: u64, tag: &str) -> 
     out.into_iter().map(|o| o.expect("observation for every case")).collect()
 }
 
+impl ChildObs {
+    /// The child was killed from outside (SIGKILL: the kernel's out-of-memory killer) or did not
+    /// answer in time. On a loaded machine neither says anything about the code under test.
+    pub fn inconclusive(&self) -> bool {
+        match self {
+            ChildObs::TimedOut(_) => true,
+            ChildObs::Died(how) => how.contains("signal 9"),
+            _ => false,
+        }
+    }
+}
+
+/// Like `run_children`, but every inconclusive observation (killed from outside, no answer in
+/// time) is repeated once, alone on the machine, with `retry_timeout_s`.
+pub fn run_children_retry(cases: &[J], parallel: usize, timeout_s: u64, retry_timeout_s: u64, tag: &str) -> Vec<ChildObs> {
+    let mut obs = run_children(cases, parallel, timeout_s, tag);
+    for i in 0..obs.len() {
+        if obs[i].inconclusive() {
+            let again = run_children(&cases[i..i + 1], 1, retry_timeout_s, &format!("{}-retry{}", tag, i));
+            obs[i] = again.into_iter().next().expect("one observation");
+        }
+    }
+    obs
+}
+
 fn run_chunk(cases: &[J], timeout_s: u64, tag: &str) -> Vec<ChildObs> {
     let mut results: Vec<ChildObs> = Vec::with_capacity(cases.len());
     // children run the build with optimisations off when it is available: tail-call elimination
